@@ -330,3 +330,14 @@ CASES.append(Case("grid_to_graph/bounded", grid_to_graph_case, functions=["grid_
 from props import C04 as _C04
 CASES.append(_C04.marshal_case("grid", False))
 CASES.append(_C04.marshal_case("graph", False))
+
+try:
+    import z3 as _z3
+except ImportError:
+    _z3 = None
+if _z3 is not None:
+    # the native engine's neighbour table: GetNeighborIndex / BuildMeshNeighbors contracts (C02's pairing cases)
+    from props import C02 as _C02
+    CASES.append(_C02.build_neighbors_case())
+    for _n in range(6):
+        CASES.append(_C02.pairing_grid_case(_n))
